@@ -185,7 +185,15 @@ func runC14(e *core.Env, s *c14Scenario) {
 	}
 	goaways := map[int][]gaw{}
 	pingAfterFirst := map[int]bool{}
+	// request HEADERS delivered to the server after it had written its first GOAWAY
+	duringDrain := map[int]map[uint32]bool{}
 	w.hook = func(f *tap.Frame) {
+		if f.From == 'c' && f.Phase == 'd' && f.Type == http2.FrameHeaders && len(goaways[f.Conn]) > 0 {
+			if duringDrain[f.Conn] == nil {
+				duringDrain[f.Conn] = map[uint32]bool{}
+			}
+			duringDrain[f.Conn][f.StreamID] = true
+		}
 		if f.From != 's' || f.Phase != 'w' {
 			return
 		}
@@ -397,7 +405,12 @@ func runC14(e *core.Env, s *c14Scenario) {
 			}
 			want := strconv.Itoa(int(h.Ret.Code()))
 			if st == nil || !st.Ended || !st.HaveStatus || st.Status != want {
-				e.Violate("accepted_stream_status_lost", "conn %d: stream %d (<= final GOAWAY id %d): handler returned %s but the peer saw %s (request aborted=%v)", c, rec.id, final.last, want, dumpStream(st), rec.aborted)
+				name := "accepted_stream_status_lost"
+				if duringDrain[p.Idx][rec.id] {
+					// the stream was accepted between the first and the final GOAWAY
+					name = "drain_lost_stream_accepted_after_first_goaway"
+				}
+				e.Violate(name, "conn %d: stream %d (<= final GOAWAY id %d): handler returned %s but the peer saw %s (request aborted=%v)", c, rec.id, final.last, want, dumpStream(st), rec.aborted)
 				continue
 			}
 			if !rec.spec.HEarly && h.RecvErr == "" && len(h.Recvd) != len(rec.spec.Msgs) {
